@@ -29,6 +29,7 @@ import (
 	"github.com/thushan/olla/internal/config"
 	"github.com/thushan/olla/internal/core/domain"
 	"github.com/thushan/olla/internal/logger"
+	"github.com/thushan/olla/internal/zz_verif/stack"
 	"github.com/thushan/olla/internal/zz_verif/vlib"
 )
 
@@ -536,12 +537,9 @@ func startStack(engine string, eps []epSpec) (*stk, error) {
 				HealthCheckURL: "/zz-health", ModelURL: "/v1/models", CheckInterval: 10 * time.Minute, CheckTimeout: 2 * time.Second,
 			})
 		}
-		ln, err := net.Listen("tcp", "127.0.0.1:0")
-		if err != nil {
-			return nil, err
-		}
-		cfg.Server.Port = ln.Addr().(*net.TCPAddr).Port
-		ln.Close()
+		// a port from this process's reserved block (picking a free ephemeral port and closing it again lets another
+		// process's listener take it before the server binds it)
+		cfg.Server.Port = stack.FreePort()
 		ctx, cancel := context.WithCancel(context.Background())
 		mgr, err := app.CreateAndStartServiceManager(ctx, cfg, quietLog())
 		if err != nil {
